@@ -14,7 +14,8 @@ pub(crate) fn empty_object(attr: &StructAttr, ts_name: Expr) -> Result<DerivedTS
     Ok(DerivedTS {
         crate_rename: crate_rename.clone(),
         inline: quote!("Record<string, never>".to_owned()),
-        inline_flattened: None,
+        // flattening a struct without fields contributes no properties (serde emits none)
+        inline_flattened: Some(quote!("{  }".to_owned())),
         docs: attr.docs.clone(),
         dependencies: Dependencies::new(crate_rename),
         export: attr.export,
